@@ -349,3 +349,30 @@ def gen_cases(tier, rng):
                        'exhaustive: all pairs of bitsets of size 0..4 x {&=,|=,^=,&,|,^,==,=}'] +
                       (['exhaustive: all bitsets of size 0..2 x all sequences of two operations'] if tier != 'quick' else []) +
                       ['random: %d histories of 5..30 operations, sizes %s' % (nrand, sizes)]}
+
+
+CLAIM = {
+    'text': 'Coq theorems (Properties_C12.v) over an executable model of DynamicBitset and its iterators: for every '
+            'bitset and every history of operations (test, both operator[], set/reset/flip of one or all positions, '
+            'resize, assignment, ==, &= |= ^= & | ^ ~, <<= << >>= >>) no access leaves the storage and after every step '
+            'size, test, count, any, none, all, to_string, to_ulong, == and forward / reverse / backward iteration '
+            'agree with a reference bit vector (size + function position -> bit) on which the same operations were '
+            'applied; compound assignment equals the binary operator for every operand and shift distance; iteration '
+            'yields exactly the ascending resp. descending set positions, nothing for an empty or all-zero bitset, '
+            'terminates within size+1 steps and never tests outside [0,size); operations addressing a position at or '
+            'beyond the size grow the bitset, read-only access there throws out_of_range. The model is tied to the code '
+            'by a correspondence check (exhaustive for sizes up to 5/6 x every single operation x positions 0..size+2, '
+            'all operand pairs up to size 4, random histories around the 64-bit word boundaries; ASan+UBSan build). '
+            'Holds on the tree with fixes/C12-1..3; on the pinned tree the three defects are reported with their inputs '
+            '(theorems C12_pinned_*_refuted).',
+    'note': 'trusted: Coq kernel, extraction (ExtrOcamlBasic), the hand-written model (validated by correspondence on '
+            'every run), harness; assumptions: positions/sizes below 2^52 (exact double growth computation, no size_t '
+            'wrap), no allocation failure. Not modelled: construction/assignment from std::bitset<N>, move '
+            'construction, to_string with other characters, operator-- of the reverse iterator (modelled, not proved '
+            'about, not exercised); const and post-increment iterator variants are compared with the pre-increment ones '
+            'inside the harness only.',
+    'technique': 'Coq proof: loop invariants for the index loops, refinement of a functional reference bit vector by '
+                 'induction over operation histories, iterator state machine = sorted positions; '
+                 'model/implementation correspondence, exhaustive small scopes + seeded random histories',
+    'design_ref': 'DESIGN.md section 5, C12; section 8 rows 11-13',
+}
